@@ -265,7 +265,7 @@ func c02SpanningResume(c *core.Check) {
 // written; and nowhere in the layout and box-building code are children stored into a text box, which is a leaf.
 func c02FirstLetter(c *core.Check) {
 	p := c.Prog
-	r := c.Rule("R11", "the first letter stays in the tree: in firstLetterToBox every inline or block box built for the letter is followed by a write to the children of the box being processed (box.Box().Children), and no function of html/layout or html/boxes stores children into a text box", 4)
+	r := c.Rule("R11", "the first letter stays in the tree: in firstLetterToBox every inline or block box built for the letter is followed by a write to the children of the box being processed (box.Box().Children), and no function of html/layout or html/boxes stores children into a text box", 2)
 	fn := p.Fn("html/layout", "firstLetterToBox")
 	if fn == nil || len(fn.Params) < 2 {
 		r.Anchor("html/layout.firstLetterToBox")
